@@ -389,27 +389,46 @@ where
 
     fn with_blob_item<T, F>(&self, key: &K, f: F) -> Result<Option<T>, LibError>
     where
-        F: FnOnce(&IndexStateItem) -> Result<T, CasManagerError>,
+        F: Fn(&IndexStateItem) -> Result<T, CasManagerError>,
     {
-        let Some(item) = self.index.read_state().get_item(key) else {
+        let Some(mut item) = self.index.read_state().get_item(key) else {
             return Ok(None);
         };
 
-        #[cfg(feature = "verif-hooks")]
-        crate::verif::point("read:after_lookup");
-        match f(&item) {
-            Ok(result) => Ok(Some(result)),
-            Err(cas_error) => {
-                if let Some(io_err) =
-                    cas_error.source().and_then(|s| s.downcast_ref::<std::io::Error>())
-                    && io_err.kind() == std::io::ErrorKind::NotFound
-                {
+        // The index lock is not held while the blob file is opened, so a concurrent overwrite or
+        // removal of the key may delete the blob in between. That is not missing data: look the
+        // key up again and follow it. Only a blob that is absent while the key still maps to it
+        // (checked twice, since the same content may be re-committed meanwhile) is reported.
+        let mut retried_unchanged = false;
+        loop {
+            #[cfg(feature = "verif-hooks")]
+            crate::verif::point("read:after_lookup");
+            let cas_error = match f(&item) {
+                Ok(result) => return Ok(Some(result)),
+                Err(cas_error) => cas_error,
+            };
+
+            let not_found = cas_error
+                .source()
+                .and_then(|s| s.downcast_ref::<std::io::Error>())
+                .is_some_and(|io_err| io_err.kind() == std::io::ErrorKind::NotFound);
+            if !not_found {
+                return Err(LibError::Cas(cas_error));
+            }
+
+            match self.index.read_state().get_item(key) {
+                None => return Ok(None),
+                Some(current) if current != item => {
+                    item = current;
+                    retried_unchanged = false;
+                }
+                Some(_) if !retried_unchanged => retried_unchanged = true,
+                Some(_) => {
                     return Err(LibError::BlobDataMissing {
                         key: format!("{key:?}"),
                         hash: item.blob_hash,
                     });
                 }
-                Err(LibError::Cas(cas_error))
             }
         }
     }
